@@ -836,6 +836,10 @@ func runIndent(r *hlib.Run) {
 			// the hypothesis of the model's idempotence theorem (ghost Indent.lexClosed) must
 			// hold for every text this harness classifies as lexically closed
 			r.Op(fmt.Sprintf("closed %d %d %s", c.tabs, c.spaces, hlib.Hex(c.src)), "1")
+			// … and so must the predicate on the text alone from which the theorem
+			// indent_idempotent_terminated derives it (Indent.delimitersTerminated)
+			r.Op("term "+hlib.Hex(c.src), "11")
+			r.Count("indent:term-op")
 		}
 		if li.nMulti > 0 {
 			r.Count("indent:has-multiline-region")
